@@ -103,6 +103,8 @@ package flood
 // connected peer at most once, never to the sender and never to an agent in the seen-by list.
 
 //@ guarded Flooder.mu: seenCache
+//@ mapdeletesonly[C11] Flooder.seenCache: (*Flooder).cleanupSeenCache, (*Flooder).ClearSeenCache, NewFlooder
+//@ note C11: a recorded advertisement key is forgotten only by the periodic clean-up (age, and the recorded size-eviction finding) or by the explicit ClearSeenCache; no frame handler removes keys
 
 //@ func NewFlooder
 //@ prop C15
